@@ -117,6 +117,12 @@ func BuildEffects(p *Program) *Effects {
 	for g, loads := range ef.Loads {
 		seen := map[ssa.Value]bool{}
 		for _, ld := range loads {
+			switch ld.Type().Underlying().(type) {
+			case *types.Interface, *types.Signature:
+				// what an interface or function value refers to is reached only through its own
+				// methods / by calling it: not memory this module can write
+				continue
+			}
 			if mutableType(ld.Type()) {
 				ef.follow(g, ld, seen, addWrite, 0)
 			}
@@ -240,6 +246,17 @@ func (ef *Effects) follow(g ssa.Value, v ssa.Value, seen map[ssa.Value]bool, add
 					}
 				}
 				continue
+			}
+			if ia, ok := x.Addr.(*ssa.IndexAddr); ok {
+				if a, ok := ia.X.(*ssa.Alloc); ok {
+					// element of a local array (the variadic argument array): follow the array's slices
+					for _, ar := range *a.Referrers() {
+						if sl, ok := ar.(*ssa.Slice); ok {
+							ef.follow(g, sl, seen, addWrite, depth+1)
+						}
+					}
+					continue
+				}
 			}
 			if g2, ok := x.Addr.(*ssa.Global); ok {
 				ef.Escapes[g] = append(ef.Escapes[g], fmt.Sprintf("aliased by package-level variable %s at %s", g2.Name(), p.InstrPos(x)))
